@@ -26,6 +26,9 @@ CONSTANTS
     MaxFaults,   \* how many transport faults the environment may inject
     Serve,       \* "full" = model serveChannel + read loop from the start; "pre" = channel already active, reader parked in Read
     Reads,       \* number of transport reads that succeed before the peer goes silent
+    TrackBufs,   \* TRUE = model packet buffers, pool recycling and other pool users (C10)
+    CloneOnWrite,\* TRUE = the write entry points copy the caller's bytes into a pooled packet (as the code does)
+    RecycleLate, \* TRUE = packet buffers go back to the pool only after Writev returned (as the code does)
     Swallow,     \* TRUE = the pipeline has an exception handler that consumes every exception
     PCancel,     \* TRUE = the environment may cancel the parent context (bootstrap shutdown) once
     FixClosed,   \* TRUE = entry points test the closed flag, close error never nil (C11 repair)
@@ -46,13 +49,17 @@ VARIABLES
     inactives, actives, reads, readsLeft, rinflight,
     faults, cancelled,
     \* history (observation only)
-    acc, begun, before, returned, okset, accAtClose, closeRet, lateBegun, drainedOK, fatal
+    acc, begun, before, returned, okset, accAtClose, closeRet, lateBegun, drainedOK, fatal,
+    \* C10: packet buffers. pooled = chunks whose packet buffer is (back) in the pool; dirty = chunks whose
+    \* bytes were overwritten (by the caller reusing its buffer, or by another pool user); corrupt = some
+    \* overwritten chunk was handed to the transport
+    pooled, dirty, corrupt
 
 vars == <<pc, stack, opi, chk, wret, queue, waitq, running, closed, closeErr, werr,
           ctxDone, tclosed, tcloses, tlog, flushed, batch, nexts, mutex, mwait,
           polls, carg, inactives, actives, reads, readsLeft, rinflight, faults,
           cancelled, acc, begun, before, returned, okset, accAtClose, closeRet,
-          lateBegun, drainedOK, fatal>>
+          lateBegun, drainedOK, fatal, pooled, dirty, corrupt>>
 
 Senders  == {SenderIds[i] : i \in 1..Len(SenderIds)}
 SrvProcs == {"V", "R"}
@@ -124,6 +131,7 @@ Init ==
     /\ acc = <<>> /\ begun = {} /\ before = I0.before
     /\ returned = {} /\ okset = {} /\ accAtClose = {} /\ closeRet = FALSE
     /\ lateBegun = {} /\ drainedOK = TRUE /\ fatal = FALSE
+    /\ pooled = {} /\ dirty = {} /\ corrupt = FALSE
 
 \* the same, on the primed variables
 Reset ==
@@ -144,6 +152,7 @@ Reset ==
     /\ acc' = <<>> /\ begun' = {} /\ before' = I0.before
     /\ returned' = {} /\ okset' = {} /\ accAtClose' = {} /\ closeRet' = FALSE
     /\ lateBegun' = {} /\ drainedOK' = TRUE /\ fatal' = FALSE
+    /\ pooled' = {} /\ dirty' = {} /\ corrupt' = FALSE
 
 -----------------------------------------------------------------------------
 (* Helpers: a set of writers finishing their current op in one step.  fin is *)
@@ -210,7 +219,7 @@ MEnter(w) ==
     /\ UNCHANGED <<stack, queue, waitq, running, closed, closeErr, werr, ctxDone, tclosed,
                    tcloses, tlog, flushed, batch, nexts, polls, carg, inactives, actives,
                    reads, readsLeft, rinflight, faults, cancelled, acc, accAtClose, closeRet, drainedOK,
-                   mutex, mwait, fatal>>
+                   mutex, mwait, fatal, pooled, dirty, corrupt>>
     /\ IF closed = 0
        THEN /\ NoFinish /\ pc' = PcAfter(One(w, IF Kind(w) = "MR" THEN "rf.enter" ELSE "w.enter"))
        ELSE IF ctxDone
@@ -228,7 +237,7 @@ RFEnter(w) ==
     /\ UNCHANGED <<stack, queue, waitq, running, closed, closeErr, werr, ctxDone, tclosed,
                    tcloses, tlog, flushed, batch, nexts, polls, carg, inactives, actives,
                    reads, readsLeft, rinflight, faults, cancelled, acc, accAtClose, closeRet, drainedOK,
-                   mutex, mwait, fatal>>
+                   mutex, mwait, fatal, pooled, dirty, corrupt>>
     /\ IF \/ FixClosed /\ closed = 1
           \/ ~FixClosed /\ closeErr \notin {"unset", "nil"}
        THEN /\ FinishAll(One(w, "closed")) /\ pc' = PcAfter(One(w, NextWPc(w)))
@@ -243,7 +252,7 @@ WEnter(w) ==
             /\ lateBegun' = IF closeRet THEN lateBegun \cup {OpId(w)} ELSE lateBegun
     /\ UNCHANGED <<stack, queue, waitq, running, closed, closeErr, werr, ctxDone, tclosed,
                    tcloses, tlog, flushed, batch, nexts, polls, carg, inactives, actives,
-                   reads, readsLeft, rinflight, faults, cancelled, acc, accAtClose, closeRet, drainedOK, fatal>>
+                   reads, readsLeft, rinflight, faults, cancelled, acc, accAtClose, closeRet, drainedOK, fatal, pooled, dirty, corrupt>>
     /\ IF \/ FixClosed /\ closed = 1
           \/ ~FixClosed /\ Kind(w) \in {"W1", "Wv", "M", "MV", "RF", "MR", "MT"} /\ closeErr \notin {"unset", "nil"}
        THEN /\ FinishAll(One(w, "closed"))
@@ -266,7 +275,7 @@ WSelect(w) ==
     /\ UNCHANGED <<stack, running, closed, closeErr, werr, ctxDone, tclosed, tcloses, tlog,
                    flushed, batch, nexts, mutex, mwait, polls, carg, inactives, actives,
                    reads, readsLeft, rinflight, faults, cancelled, begun, before, accAtClose,
-                   closeRet, lateBegun, drainedOK, fatal>>
+                   closeRet, lateBegun, drainedOK, fatal, pooled, dirty, corrupt>>
     /\ \/ /\ CallerDone(w)
           /\ FinishAll(One(w, "ctx")) /\ pc' = PcAfter(One(w, NextWPc(w)))
           /\ UNCHANGED <<queue, waitq, acc>>
@@ -289,7 +298,7 @@ WCas(w) ==
     /\ UNCHANGED <<stack, queue, waitq, closed, closeErr, werr, ctxDone, tclosed, tcloses, tlog,
                    flushed, batch, mutex, mwait, polls, carg, inactives, actives, reads,
                    readsLeft, rinflight, faults, cancelled, acc, begun, before, accAtClose,
-                   closeRet, lateBegun, drainedOK, fatal>>
+                   closeRet, lateBegun, drainedOK, fatal, pooled, dirty, corrupt>>
     /\ IF running = 0
        THEN /\ nexts <= Len(SenderIds)
             /\ running' = 1 /\ nexts' = nexts + 1
@@ -302,7 +311,7 @@ TWrite(w) ==
     /\ w \in Writers /\ pc[w] \in {"t.write", "t.writev"}
     /\ UNCHANGED <<stack, queue, waitq, running, closed, closeErr, werr, ctxDone, tclosed, tcloses,
                    flushed, batch, nexts, polls, carg, inactives, actives, reads, readsLeft,
-                   rinflight, faults, cancelled, begun, before, accAtClose, closeRet, lateBegun, drainedOK, fatal>>
+                   rinflight, faults, cancelled, begun, before, accAtClose, closeRet, lateBegun, drainedOK, fatal, pooled, dirty, corrupt>>
     /\ IF tclosed
        THEN /\ FinishAll(One(w, "terr")) /\ UNCHANGED <<tlog, acc>>
             /\ Unlock(w, One(w, NextWPc(w)))
@@ -317,13 +326,13 @@ TWriteFail(w) ==
     /\ Unlock(w, One(w, NextWPc(w)))
     /\ UNCHANGED <<stack, queue, waitq, running, closed, closeErr, werr, ctxDone, tclosed, tcloses,
                    tlog, flushed, batch, nexts, polls, carg, inactives, actives, reads, readsLeft,
-                   rinflight, cancelled, acc, begun, before, accAtClose, closeRet, lateBegun, drainedOK, fatal>>
+                   rinflight, cancelled, acc, begun, before, accAtClose, closeRet, lateBegun, drainedOK, fatal, pooled, dirty, corrupt>>
 
 TWFlush(w) ==
     /\ w \in Writers /\ pc[w] = "t.flush"
     /\ UNCHANGED <<stack, queue, waitq, running, closed, closeErr, werr, ctxDone, tclosed, tcloses,
                    tlog, batch, nexts, polls, carg, inactives, actives, reads, readsLeft,
-                   rinflight, faults, cancelled, acc, begun, before, accAtClose, closeRet, lateBegun, drainedOK, fatal>>
+                   rinflight, faults, cancelled, acc, begun, before, accAtClose, closeRet, lateBegun, drainedOK, fatal, pooled, dirty, corrupt>>
     /\ IF tclosed /\ flushed < Len(tlog)
        THEN /\ FinishAll(One(w, "terr")) /\ UNCHANGED flushed
             /\ Unlock(w, One(w, NextWPc(w)))
@@ -341,7 +350,7 @@ TWFlushFail(w) ==
     /\ Unlock(w, One(w, NextWPc(w)))
     /\ UNCHANGED <<stack, queue, waitq, running, closed, closeErr, werr, ctxDone, tclosed, tcloses,
                    tlog, flushed, batch, nexts, polls, carg, inactives, actives, reads, readsLeft,
-                   rinflight, cancelled, acc, begun, before, accAtClose, closeRet, lateBegun, drainedOK, fatal>>
+                   rinflight, cancelled, acc, begun, before, accAtClose, closeRet, lateBegun, drainedOK, fatal, pooled, dirty, corrupt>>
 
 \* environment: a caller context of writer w expires
 CtxCancel(w) ==
@@ -350,7 +359,7 @@ CtxCancel(w) ==
     /\ cancelled' = cancelled \cup {w}
     /\ UNCHANGED <<stack, queue, running, closed, closeErr, werr, ctxDone, tclosed, tcloses, tlog,
                    flushed, batch, nexts, mutex, mwait, polls, carg, inactives, actives, reads,
-                   readsLeft, rinflight, faults, acc, begun, before, accAtClose, closeRet, lateBegun, drainedOK, fatal>>
+                   readsLeft, rinflight, faults, acc, begun, before, accAtClose, closeRet, lateBegun, drainedOK, fatal, pooled, dirty, corrupt>>
     /\ IF pc[w] = "w.blocked" /\ Ctx(w) = "mortal"
        THEN /\ waitq' = SelectSeq(waitq, LAMBDA x : x # w)
             /\ FinishAll(One(w, "ctx")) /\ pc' = PcAfter(One(w, NextWPc(w)))
@@ -369,7 +378,39 @@ ParentCancel ==
     /\ UNCHANGED <<stack, queue, running, closed, closeErr, werr, tclosed, tcloses, tlog,
                    flushed, batch, nexts, mutex, mwait, polls, carg, inactives, actives, reads,
                    readsLeft, rinflight, faults, cancelled, acc, begun, before, accAtClose, closeRet,
-                   lateBegun, drainedOK, fatal>>
+                   lateBegun, drainedOK, fatal, pooled, dirty, corrupt>>
+
+\* environment (C10): another user of the buffer pool obtains whatever is pooled and overwrites it
+PoolUser ==
+    /\ TrackBufs /\ ~(pooled \subseteq dirty)
+    /\ dirty' = dirty \cup pooled
+    /\ NoFinish
+    /\ UNCHANGED <<pc, stack, queue, waitq, running, closed, closeErr, werr, ctxDone, tclosed, tcloses, tlog,
+                   flushed, batch, nexts, mutex, mwait, polls, carg, inactives, actives, reads,
+                   readsLeft, rinflight, faults, cancelled, acc, begun, before, accAtClose, closeRet,
+                   lateBegun, drainedOK, fatal, pooled, corrupt>>
+
+PoolUserAny ==
+    /\ TrackBufs
+    /\ dirty' = dirty \cup pooled
+    /\ NoFinish
+    /\ UNCHANGED <<pc, stack, queue, waitq, running, closed, closeErr, werr, ctxDone, tclosed, tcloses, tlog,
+                   flushed, batch, nexts, mutex, mwait, polls, carg, inactives, actives, reads,
+                   readsLeft, rinflight, faults, cancelled, acc, begun, before, accAtClose, closeRet,
+                   lateBegun, drainedOK, fatal, pooled, corrupt>>
+
+\* environment (C10): writer w reuses the buffers of its calls that have returned; the packets in the
+\* queue are private copies unless the entry points do not clone
+Scribble(w) ==
+    /\ TrackBufs /\ ~CloneOnWrite /\ w \in Writers
+    /\ LET mine == UNION {ChunksOf(o) : o \in {x \in returned : x[1] = w}} IN
+       /\ ~(mine \subseteq dirty)
+       /\ dirty' = dirty \cup mine
+    /\ NoFinish
+    /\ UNCHANGED <<pc, stack, queue, waitq, running, closed, closeErr, werr, ctxDone, tclosed, tcloses, tlog,
+                   flushed, batch, nexts, mutex, mwait, polls, carg, inactives, actives, reads,
+                   readsLeft, rinflight, faults, cancelled, acc, begun, before, accAtClose, closeRet,
+                   lateBegun, drainedOK, fatal, pooled, corrupt>>
 
 -----------------------------------------------------------------------------
 (* The sender routine (writeOnce), run by sender incarnations and - with     *)
@@ -385,14 +426,15 @@ XStart(p) ==
     /\ UNCHANGED <<stack, queue, waitq, running, closed, closeErr, werr, ctxDone, tclosed, tcloses,
                    tlog, flushed, nexts, mutex, mwait, polls, carg, inactives, actives, reads,
                    readsLeft, rinflight, faults, cancelled, acc, begun, before, accAtClose, closeRet,
-                   lateBegun, drainedOK, fatal>>
+                   lateBegun, drainedOK, fatal, pooled, dirty, corrupt>>
 
 SPoll(p) ==
     /\ pc[p] = "s.poll"
     /\ NoFinish
     /\ UNCHANGED <<stack, running, closed, closeErr, werr, ctxDone, tclosed, tcloses, tlog, flushed,
                    nexts, mutex, mwait, polls, carg, inactives, actives, reads, readsLeft, rinflight,
-                   faults, cancelled, begun, before, accAtClose, closeRet, lateBegun, drainedOK, fatal>>
+                   faults, cancelled, begun, before, accAtClose, closeRet, lateBegun, drainedOK, fatal, dirty, corrupt>>
+    /\ pooled' = IF TrackBufs /\ ~RecycleLate /\ queue # <<>> THEN pooled \cup {Head(queue)} ELSE pooled
     /\ IF queue # <<>>
        THEN LET nb == Append(batch[p], Head(queue))
                 np == IF Len(nb) < BatchCap THEN "s.poll" ELSE "t.writev"
@@ -414,10 +456,13 @@ TWritev(p) ==
     /\ batch' = [batch EXCEPT ![p] = <<>>]
     /\ UNCHANGED <<stack, queue, waitq, running, closed, closeErr, werr, ctxDone, tclosed, tcloses,
                    flushed, nexts, mutex, mwait, polls, carg, inactives, actives, reads, readsLeft,
-                   rinflight, faults, cancelled, acc, begun, before, accAtClose, closeRet, lateBegun, drainedOK, fatal>>
+                   rinflight, faults, cancelled, acc, begun, before, accAtClose, closeRet, lateBegun, drainedOK, fatal, dirty>>
     /\ IF tclosed
-       THEN /\ UNCHANGED tlog /\ pc' = PcAfter(One(p, "s.fail"))
+       THEN /\ UNCHANGED <<tlog, pooled, corrupt>> /\ pc' = PcAfter(One(p, "s.fail"))
        ELSE /\ tlog' = tlog \o batch[p] /\ pc' = PcAfter(One(p, "s.len"))
+            \* the bytes handed over are the packets' current bytes; afterwards the packets are recycled
+            /\ corrupt' = (corrupt \/ (TrackBufs /\ Range(batch[p]) \cap dirty # {}))
+            /\ pooled' = IF TrackBufs THEN pooled \cup Range(batch[p]) ELSE pooled
 
 TWritevFail(p) ==
     /\ SenderLike(p) /\ pc[p] = "t.writev" /\ faults > 0 /\ ~tclosed
@@ -427,7 +472,7 @@ TWritevFail(p) ==
     /\ pc' = PcAfter(One(p, "s.fail"))
     /\ UNCHANGED <<stack, queue, waitq, running, closed, closeErr, werr, ctxDone, tclosed, tcloses,
                    tlog, flushed, nexts, mutex, mwait, polls, carg, inactives, actives, reads, readsLeft,
-                   rinflight, cancelled, acc, begun, before, accAtClose, closeRet, lateBegun, drainedOK>>
+                   rinflight, cancelled, acc, begun, before, accAtClose, closeRet, lateBegun, drainedOK, pooled, dirty, corrupt>>
     /\ fatal' = (fatal \/ closed = 0)
 
 SLen(p) ==
@@ -437,14 +482,14 @@ SLen(p) ==
     /\ UNCHANGED <<stack, queue, waitq, running, closed, closeErr, werr, ctxDone, tclosed, tcloses,
                    tlog, flushed, batch, nexts, mutex, mwait, polls, carg, inactives, actives, reads,
                    readsLeft, rinflight, faults, cancelled, acc, begun, before, accAtClose, closeRet,
-                   lateBegun, drainedOK, fatal>>
+                   lateBegun, drainedOK, fatal, pooled, dirty, corrupt>>
 
 TSFlush(p) ==
     /\ SenderLike(p) /\ pc[p] = "t.flush"
     /\ NoFinish
     /\ UNCHANGED <<stack, queue, waitq, running, closed, closeErr, werr, ctxDone, tclosed, tcloses,
                    tlog, batch, nexts, mutex, mwait, polls, carg, inactives, actives, reads, readsLeft,
-                   rinflight, faults, cancelled, acc, begun, before, accAtClose, closeRet, lateBegun, drainedOK, fatal>>
+                   rinflight, faults, cancelled, acc, begun, before, accAtClose, closeRet, lateBegun, drainedOK, fatal, pooled, dirty, corrupt>>
     /\ IF tclosed /\ flushed < Len(tlog)
        THEN /\ UNCHANGED flushed /\ pc' = PcAfter(One(p, "s.fail"))
        ELSE /\ flushed' = Len(tlog) /\ pc' = PcAfter(One(p, "s.release"))
@@ -456,7 +501,7 @@ TSFlushFail(p) ==
     /\ pc' = PcAfter(One(p, "s.fail"))
     /\ UNCHANGED <<stack, queue, waitq, running, closed, closeErr, werr, ctxDone, tclosed, tcloses,
                    tlog, flushed, batch, nexts, mutex, mwait, polls, carg, inactives, actives, reads,
-                   readsLeft, rinflight, cancelled, acc, begun, before, accAtClose, closeRet, lateBegun, drainedOK>>
+                   readsLeft, rinflight, cancelled, acc, begun, before, accAtClose, closeRet, lateBegun, drainedOK, pooled, dirty, corrupt>>
     /\ fatal' = (fatal \/ closed = 0)
 
 SRelease(p) ==
@@ -467,7 +512,7 @@ SRelease(p) ==
     /\ UNCHANGED <<stack, queue, waitq, closed, closeErr, werr, ctxDone, tclosed, tcloses, tlog,
                    flushed, batch, nexts, mutex, mwait, polls, carg, inactives, actives, reads,
                    readsLeft, rinflight, faults, cancelled, acc, begun, before, accAtClose, closeRet,
-                   lateBegun, drainedOK, fatal>>
+                   lateBegun, drainedOK, fatal, pooled, dirty, corrupt>>
 
 SRecheck(p) ==
     /\ pc[p] = "s.recheck"
@@ -478,7 +523,7 @@ SRecheck(p) ==
     /\ UNCHANGED <<queue, waitq, running, closed, closeErr, werr, ctxDone, tclosed, tcloses, tlog,
                    flushed, batch, nexts, mutex, mwait, polls, carg, inactives, actives, reads,
                    readsLeft, rinflight, faults, cancelled, acc, begun, before, accAtClose, closeRet,
-                   lateBegun, drainedOK, fatal>>
+                   lateBegun, drainedOK, fatal, pooled, dirty, corrupt>>
 
 SRecas(p) ==
     /\ pc[p] = "s.recas"
@@ -489,7 +534,7 @@ SRecas(p) ==
     /\ UNCHANGED <<queue, waitq, closed, closeErr, werr, ctxDone, tclosed, tcloses, tlog,
                    flushed, batch, nexts, mutex, mwait, polls, carg, inactives, actives, reads,
                    readsLeft, rinflight, faults, cancelled, acc, begun, before, accAtClose, closeRet,
-                   lateBegun, drainedOK, fatal>>
+                   lateBegun, drainedOK, fatal, pooled, dirty, corrupt>>
 
 \* recover path of writeOnce: release ownership, then Close(err) (tail call)
 SFail(p) ==
@@ -501,7 +546,7 @@ SFail(p) ==
     /\ UNCHANGED <<stack, queue, waitq, closed, closeErr, werr, ctxDone, tclosed, tcloses, tlog,
                    flushed, batch, nexts, mutex, mwait, polls, inactives, actives, reads,
                    readsLeft, rinflight, faults, cancelled, acc, begun, before, accAtClose, closeRet,
-                   lateBegun, drainedOK, fatal>>
+                   lateBegun, drainedOK, fatal, pooled, dirty, corrupt>>
 
 -----------------------------------------------------------------------------
 (* Close                                                                     *)
@@ -511,7 +556,7 @@ CCas(p) ==
     /\ NoFinish
     /\ UNCHANGED <<queue, waitq, running, closeErr, ctxDone, tclosed, tcloses, tlog, flushed, batch,
                    nexts, mutex, mwait, carg, inactives, actives, reads, readsLeft, rinflight, faults,
-                   cancelled, acc, begun, before, lateBegun, drainedOK, fatal>>
+                   cancelled, acc, begun, before, lateBegun, drainedOK, fatal, pooled, dirty, corrupt>>
     /\ IF closed = 0
        THEN /\ closed' = 1 /\ werr' = carg[p] /\ accAtClose' = okset
             /\ polls' = [polls EXCEPT ![p] = 0]
@@ -526,7 +571,7 @@ CPoll(p) ==
     /\ NoFinish
     /\ UNCHANGED <<queue, waitq, closed, closeErr, werr, ctxDone, tclosed, tcloses, tlog, flushed,
                    nexts, mutex, mwait, carg, inactives, actives, reads, readsLeft, rinflight, faults,
-                   cancelled, acc, begun, before, accAtClose, closeRet, lateBegun, fatal>>
+                   cancelled, acc, begun, before, accAtClose, closeRet, lateBegun, fatal, pooled, dirty, corrupt>>
     /\ IF FixDrain
        THEN IF running = 0
             THEN /\ running' = 1
@@ -554,7 +599,7 @@ CSetErr(p) ==
     /\ UNCHANGED <<stack, queue, waitq, running, closed, werr, ctxDone, tclosed, tcloses, tlog,
                    flushed, batch, nexts, mutex, mwait, polls, carg, inactives, actives, reads,
                    readsLeft, rinflight, faults, cancelled, acc, begun, before, accAtClose, closeRet,
-                   lateBegun, drainedOK, fatal>>
+                   lateBegun, drainedOK, fatal, pooled, dirty, corrupt>>
 
 \* transport.Close: a reader blocked in Read fails; channel already closed => mute
 TClose(p) ==
@@ -568,7 +613,7 @@ TClose(p) ==
     /\ UNCHANGED <<stack, queue, waitq, running, closed, closeErr, werr, ctxDone, tlog,
                    flushed, batch, nexts, mutex, mwait, polls, carg, inactives, actives, reads,
                    readsLeft, faults, cancelled, acc, begun, before, accAtClose, closeRet,
-                   lateBegun, drainedOK, fatal>>
+                   lateBegun, drainedOK, fatal, pooled, dirty, corrupt>>
 
 \* cancel the channel context: every writer parked in select returns
 CCancel(p) ==
@@ -582,7 +627,7 @@ CCancel(p) ==
     /\ UNCHANGED <<stack, queue, running, closed, closeErr, werr, tclosed, tcloses, tlog,
                    flushed, batch, nexts, mutex, mwait, polls, carg, inactives, actives, reads,
                    readsLeft, rinflight, faults, cancelled, acc, begun, before, accAtClose, closeRet,
-                   lateBegun, drainedOK, fatal>>
+                   lateBegun, drainedOK, fatal, pooled, dirty, corrupt>>
 
 CInactive(p) ==
     /\ pc[p] = "c.inactive"
@@ -593,7 +638,7 @@ CInactive(p) ==
     /\ UNCHANGED <<queue, waitq, running, closed, closeErr, werr, ctxDone, tclosed, tcloses, tlog,
                    flushed, batch, nexts, mutex, mwait, polls, carg, actives, reads,
                    readsLeft, rinflight, faults, cancelled, acc, begun, before, accAtClose,
-                   lateBegun, drainedOK, fatal>>
+                   lateBegun, drainedOK, fatal, pooled, dirty, corrupt>>
 
 -----------------------------------------------------------------------------
 (* serveChannel and the read loop                                            *)
@@ -605,7 +650,7 @@ VStart ==
     /\ UNCHANGED <<stack, queue, waitq, running, closed, closeErr, werr, ctxDone, tclosed, tcloses,
                    tlog, flushed, batch, nexts, mutex, mwait, polls, carg, inactives, actives, reads,
                    readsLeft, rinflight, faults, cancelled, acc, begun, before, accAtClose, closeRet,
-                   lateBegun, drainedOK, fatal>>
+                   lateBegun, drainedOK, fatal, pooled, dirty, corrupt>>
 
 RActive ==
     /\ pc["R"] = "r.active"
@@ -617,7 +662,7 @@ RActive ==
     /\ UNCHANGED <<stack, queue, waitq, running, closed, closeErr, werr, ctxDone, tclosed, tcloses,
                    tlog, flushed, batch, nexts, mutex, mwait, polls, carg, inactives, reads,
                    readsLeft, rinflight, faults, cancelled, acc, begun, before, accAtClose, closeRet,
-                   lateBegun, drainedOK, fatal>>
+                   lateBegun, drainedOK, fatal, pooled, dirty, corrupt>>
 
 RCheck ==
     /\ pc["R"] = "r.check"
@@ -630,14 +675,14 @@ RCheck ==
     /\ UNCHANGED <<stack, queue, waitq, running, closed, closeErr, werr, ctxDone, tclosed, tcloses,
                    tlog, flushed, batch, nexts, mutex, mwait, polls, inactives, actives, reads,
                    readsLeft, rinflight, faults, cancelled, acc, begun, before, accAtClose, closeRet,
-                   lateBegun, drainedOK, fatal>>
+                   lateBegun, drainedOK, fatal, pooled, dirty, corrupt>>
 
 TRead ==
     /\ pc["R"] = "t.read"
     /\ NoFinish
     /\ UNCHANGED <<stack, queue, waitq, running, closed, closeErr, werr, ctxDone, tclosed, tcloses,
                    tlog, flushed, batch, nexts, mutex, mwait, polls, carg, inactives, actives,
-                   faults, cancelled, acc, begun, before, accAtClose, closeRet, lateBegun, drainedOK, fatal>>
+                   faults, cancelled, acc, begun, before, accAtClose, closeRet, lateBegun, drainedOK, fatal, pooled, dirty, corrupt>>
     /\ IF tclosed
        THEN /\ pc' = PcAfter(One("R", "r.check")) /\ UNCHANGED <<reads, readsLeft, rinflight>>
        ELSE IF readsLeft > 0
@@ -660,7 +705,7 @@ TReadFail ==
     /\ UNCHANGED <<queue, waitq, running, closed, closeErr, werr, ctxDone, tclosed, tcloses,
                    tlog, flushed, batch, nexts, mutex, mwait, polls, inactives, actives, reads,
                    readsLeft, rinflight, cancelled, acc, begun, before, accAtClose, closeRet,
-                   lateBegun, drainedOK>>
+                   lateBegun, drainedOK, pooled, dirty, corrupt>>
     /\ fatal' = (fatal \/ (closed = 0 /\ ~Swallow))
 
 -----------------------------------------------------------------------------
@@ -685,7 +730,7 @@ Fault(p) ==
     \/ (p \notin Writers /\ (TWritevFail(p) \/ TSFlushFail(p)))
     \/ (p = "R" /\ TReadFail)
 
-Next == (\E p \in Procs : Step(p) \/ Fault(p) \/ (p \in Writers /\ CtxCancel(p))) \/ ParentCancel
+Next == (\E p \in Procs : Step(p) \/ Fault(p) \/ (p \in Writers /\ CtxCancel(p)) \/ Scribble(p)) \/ ParentCancel \/ PoolUser
 
 Spec == Init /\ [][Next]_vars
 
@@ -717,6 +762,11 @@ C01_RealTime ==
     \A b \in Range(tlog) : \A a \in before[OpOf(b)] :
         (a \in okset /\ NoFaultYet /\ closed = 0) =>
             \A ca \in ChunksOf(a) : (ca \in Range(tlog) /\ Pos(tlog, ca) < Pos(tlog, b))
+
+\* C10: what reaches the transport are the bytes the caller's buffer held when the call was made
+C10_Snapshot == ~corrupt
+\* ... and no packet is in the pool while it still waits to be sent
+C10_Exclusive == TrackBufs => pooled \cap (Range(queue) \cup AllBatched) = {}
 
 \* C09: the low-level writes of one call (one message) are contiguous on the transport
 C09_Contiguous ==
